@@ -469,7 +469,9 @@ async fn run_case(cx: &Ctx<'_>, seed: u64, idx: u64, thorough: bool, selftest: b
                     match (&spec.interleaved_delete, h.second_commit_round_accepted) {
                         (Some(_), true) => "+concurrent-delete+second-commit-round",
                         (Some(_), false) => "+concurrent-delete",
-                        (None, true) => "+second-commit-round",
+                        // a second commit round without a concurrent writer is not a class of
+                        // its own (the round is recorded in the witness history)
+                        (None, true) => "",
                         (None, false) => "",
                     }
                 );
